@@ -13,7 +13,7 @@
    SetHasSplicingPoint, SetHasTransportPrivateData, SetHasAdaptationFieldExtension, SetPCR, SetOPCR,
    SetSpliceCountdown, SetTransportPrivateData, SetAdaptationFieldExtension, Packet.SetAdaptationField) are
    covered by step_refines and therefore by the history theorem; nothing is _partial there. *)
-From Gots Require Import Base.Prelude Model.Pcr Model.AF Model.AFfn Spec.AFSpec
+From Gots Require Import Base.Prelude Model.Pcr Model.AF Model.AFfn Spec.AFSpec Spec.AFParse Proofs.AFParseSound
   Proofs.AFLists Proofs.PcrBytes Proofs.AFHistory Proofs.AFGetters Proofs.AFExamples Proofs.AFTotal Proofs.AFLastSet Proofs.AFFrame Model.AFPinned Proofs.AFPinnedRefuted.
 
 (* one call: Ok => the bytes are the serialisation of the updated logical value (same header, same payload,
@@ -33,6 +33,13 @@ Theorem C03_history : forall h p l hdr pay, repr p l hdr pay -> Forall op_ok h -
   exists l', hist_rel l h l' /\ repr (AF.run p h) l' hdr pay.
 Proof. exact history. Qed.
 Print Assumptions C03_history.
+
+(* the correspondence's notion of "deciding case": the Coq-extracted recogniser (executor op af.wf) accepted the start
+   packet and the arguments; such a case is inside the hypotheses of C03_history *)
+Theorem C03_deciding_cases_are_in_domain : forall p ops, in_domain p ops = true ->
+  exists hdr l pay l', repr p l hdr pay /\ hist_rel l ops l' /\ repr (AF.run p ops) l' hdr pay.
+Proof. exact in_domain_history. Qed.
+Print Assumptions C03_deciding_cases_are_in_domain.
 
 (* ... and after every call of the history, not only at its end *)
 Theorem C03_history_every_prefix : forall h1 h2 p l hdr pay, repr p l hdr pay -> Forall op_ok (h1 ++ h2) ->
